@@ -49,3 +49,62 @@ Fixpoint sent_by (r : nat) (cs : list cchoice) : bytes :=
 Definition pending (s : cst) (k i : nat) : bytes :=
   concat (map snd (filter (fun '(i', _) => i' =? i) (queue s k))).
 End C.
+
+(* ---- the shutdown protocol (process_plan: every client sends Shutdown after its last message; Compressor::run:
+   a thread leaves its loop when it has seen a Shutdown from every client registered with it; a send on a channel
+   whose thread has left fails, which aborts the whole run with an internal error) ---- *)
+Section Shutdown.
+Variable T : nat.                       (* threads *)
+Variable n : nat.                       (* registered clients 0 .. n-1; client r talks to thread r mod T *)
+Variable count_clients : bool.          (* true: leave after one Shutdown per registered client (code now);
+                                           false: leave at the first Shutdown (pinned commit) *)
+Inductive smsg := MData | MShutdown.
+Record sst := {
+  squeue : nat -> list smsg;
+  alive : nat -> bool;
+  got : nat -> nat;                     (* Shutdowns a thread has processed *)
+  cdone : nat -> bool;                  (* the client has sent its Shutdown (it sends nothing afterwards) *)
+  send_failed : bool
+}.
+Inductive schoice := SData (r : nat) | SShutdown (r : nat) | SRecv (k : nat).
+
+Definition nclients (k : nat) : nat := length (filter (fun r => r mod T =? k) (seq 0 n)).
+
+Definition enqueue (s : sst) (k : nat) (m : smsg) : sst :=
+  if alive s k then
+    {| squeue := fun k' => if k' =? k then squeue s k' ++ [m] else squeue s k'; alive := alive s; got := got s;
+       cdone := cdone s; send_failed := send_failed s |}
+  else
+    {| squeue := squeue s; alive := alive s; got := got s; cdone := cdone s; send_failed := true |}.
+
+Definition sstep (s : sst) (c : schoice) : sst :=
+  match c with
+  | SData r => if (r <? n) && negb (cdone s r) then enqueue s (r mod T) MData else s
+  | SShutdown r =>
+      if (r <? n) && negb (cdone s r) then
+        let s' := enqueue s (r mod T) MShutdown in
+        {| squeue := squeue s'; alive := alive s'; got := got s';
+           cdone := fun r' => if r' =? r then true else cdone s r'; send_failed := send_failed s' |}
+      else s
+  | SRecv k =>
+      if alive s k then
+        match squeue s k with
+        | [] => s
+        | MData :: rest =>
+            {| squeue := fun k' => if k' =? k then rest else squeue s k'; alive := alive s; got := got s;
+               cdone := cdone s; send_failed := send_failed s |}
+        | MShutdown :: rest =>
+            let g := S (got s k) in
+            let leaves := if count_clients then nclients k <=? g else true in
+            {| squeue := fun k' => if k' =? k then rest else squeue s k';
+               alive := fun k' => if k' =? k then negb leaves else alive s k';
+               got := fun k' => if k' =? k then g else got s k';
+               cdone := cdone s; send_failed := send_failed s |}
+        end
+      else s
+  end.
+
+Definition sinit : sst :=
+  {| squeue := fun _ => []; alive := fun _ => true; got := fun _ => 0; cdone := fun _ => false; send_failed := false |}.
+Definition srun (cs : list schoice) : sst := fold_left sstep cs sinit.
+End Shutdown.
